@@ -48,8 +48,10 @@ BulkWant(m) == LET n == conc.bulkN[m] IN
 
 CheckRow(r) ==
     LET S      == Range(r.imported)
-        prefix == S = 1 .. Cardinality(S)
         P      == SelectSeq(wire, LAMBDA p : p.file \in S)
+        \* judged: the imported files hold a prefix of what went over the wire (capture files that overlap in time - the
+        \* Overlap variant of harness/wire - hold one only when all files up to some point are imported)
+        prefix == S = 1 .. Cardinality(S) /\ P = SubSeq(wire, 1, Len(P))
         EC     == {c \in DOMAIN cv : Seen(c, P)}
         EB     == {P[i].m : i \in {j \in DOMAIN P : P[j].k = "bulk"}}
     IN /\ Chk(r.err = "", r, 0, "import-error", r.err, "")
